@@ -28,7 +28,7 @@ REQUIRED = ["at_most_once_atomic", "at_most_one_success_atomic", "at_most_one_su
             "two_success_witness", "two_success_witness_mark", "at_most_once_fails_without_atomicity",
             "at_most_once_partial", "mark_separated_partial",
             "store_fault_fails_closed", "nonce_covers_window", "replay_window_empty_today", "s2s_no_replay_inside_window", "program_matches_api_calls",
-            "fact_consumer_calls", "fact_store_keys", "fact_call_sites", "fact_engine_wiring", "fact_keyspace_disjoint", "keyspace_disjoint", "keyspace_disjoint_redis", "fact_key_construction", "put_total_on_keys", "fact_store_users", "fact_prefixes_distinct", "fact_gad_atomic_today",
+            "fact_consumer_calls", "fact_store_keys", "fact_call_sites", "fact_engine_wiring", "fact_requests_are_self_contained", "fact_keyspace_disjoint", "keyspace_disjoint", "keyspace_disjoint_redis", "fact_key_construction", "put_total_on_keys", "fact_store_users", "fact_prefixes_distinct", "fact_gad_atomic_today",
             "fact_mark_atomic_today", "fact_session_store_shapes", "fact_ttls_positive", "two_success_witness_multinode"]
 
 
